@@ -69,7 +69,9 @@ def rel_c16(container, d):
 def rel_c20(container, d):
     if d.layer == "L3":
         return d.kind in ("model-phys", "model-mem")
-    return d.kind in ("absurd-request", "walker", "growth-count", "crash")
+    if d.kind == "obs":     # "trimming ... without ever dropping below the element count or changing contents"
+        return (d.op or "").split()[:1] in (["trim"], ["trim_capacity"])
+    return d.kind in ("absurd-request", "walker", "growth-count", "trim-minimum", "crash")
 
 
 def S(container, **kw):
